@@ -36,6 +36,8 @@ impl AnonymousIngressEngine {
 
   pub fn deregister_pipe(&self, pipe_id: usize) {
     self.queue.deregister_pipe(pipe_id);
+    #[cfg(rzmq_verif)]
+    crate::verif::sched::point("anon.dereg.before_clear");
     *self.local_cache.lock() = None;
   }
 
